@@ -24,8 +24,12 @@ import (
 )
 
 var (
-	sseFlushPattern   = [2]byte{'\n', '\n'}
-	chunkFlushPattern = [2]byte{'\r', '\n'}
+	// A line of an event stream ends with LF, CR or CRLF and an event ends with an empty line,
+	// see https://html.spec.whatwg.org/multipage/server-sent-events.html#parsing-an-event-stream.
+	// Flushing after CRLF covers events terminated by CRLF CRLF and, when the stream is chunked,
+	// the end of every chunk.
+	sseFlushPatterns   = [][2]byte{{'\n', '\n'}, {'\r', '\r'}, {'\r', '\n'}}
+	chunkFlushPatterns = [][2]byte{{'\r', '\n'}}
 )
 
 func shouldChunk(res *http.Response) bool {
@@ -66,20 +70,20 @@ type flusher interface {
 	Flush() error
 }
 
-// patternFlushWriter is an io.Writer that flushes when a pattern is detected.
+// patternFlushWriter is an io.Writer that flushes when one of the patterns is detected.
 type patternFlushWriter struct {
-	w       io.Writer
-	f       flusher
-	pattern [2]byte
+	w        io.Writer
+	f        flusher
+	patterns [][2]byte
 
 	last byte
 }
 
-func newPatternFlushWriter(w io.Writer, f flusher, pattern [2]byte) *patternFlushWriter {
+func newPatternFlushWriter(w io.Writer, f flusher, patterns ...[2]byte) *patternFlushWriter {
 	return &patternFlushWriter{
-		w:       w,
-		f:       f,
-		pattern: pattern,
+		w:        w,
+		f:        f,
+		patterns: patterns,
 	}
 }
 
@@ -89,8 +93,11 @@ func (w *patternFlushWriter) Write(p []byte) (n int, err error) {
 		return
 	}
 
-	if (w.last == w.pattern[0] && n > 0 && p[0] == w.pattern[1]) || bytes.LastIndex(p, w.pattern[:]) != -1 {
-		err = w.f.Flush()
+	for _, pattern := range w.patterns {
+		if (w.last == pattern[0] && n > 0 && p[0] == pattern[1]) || bytes.LastIndex(p, pattern[:]) != -1 {
+			err = w.f.Flush()
+			break
+		}
 	}
 
 	if n > 0 {
